@@ -211,6 +211,25 @@ Definition resume_ops (s : dir) (fs : list N) : list op :=
   | _ => []
   end.
 
+(* doSearch looks every unprocessed persisted name up among the fractions alive at that moment
+   (fracsByName); a persisted fraction that is gone makes processFrac dereference nil: the process dies
+   there (second component). Fractions that are alive but not in the persisted list play no role. *)
+Fixpoint dosearch_live (s : dir) (live fs : list N) : list op * bool :=
+  match fs with
+  | [] => (atomic_write FInfo FInfoTmp (CInfo true), false)
+  | f :: r =>
+      if processed s f then dosearch_live s live r
+      else if existsb (N.eqb f) live then
+             let od := dosearch_live s live r in
+             (atomic_write (FQpr f) (FQprTmp f) (CQpr f) ++ fst od, snd od)
+           else ([], true)
+  end.
+Definition resume_live (s : dir) (live fs : list N) : list op * bool :=
+  match nm_find (fkey FInfo) s with
+  | Some (CInfo false) => dosearch_live s live fs
+  | _ => ([], false)
+  end.
+
 (* crash variants of a run that issues [ops] from state s: after k complete operations (variant 0);
    the k-th operation (from 0), a write, cut short (variant 1: the file holds a strict prefix);
    k complete operations, then power loss: data not yet fsynced is lost (variant 2) *)
